@@ -20,6 +20,7 @@ CONSTANTS
   FutureH = 1
   MaxSteps = 100
   CrashOdds = 25
+  StopOdds = 12
 INIT MBTInit
 NEXT MBTNext
 CHECK_DEADLOCK FALSE
